@@ -170,7 +170,8 @@ PROPS = {
         "product {little, big endian} x {zlib levels, raw} x {bigWig section types 1/2/3 mixed, bigBed} x chromosome-tree "
         "block sizes {1,2,3,256} (1-4 levels) x R-tree fan-out {2,3,5,256} (depth 1-8) x node placement {level order, "
         "reverse, children first, shuffled, a non-leaf node as the last bytes before the trailing magic} x version 1..4 "
-        "(v1 without summary) x 0-3 zoom levels. The harness subcommand readq executes CHROMS / INFO / SUMMARY / "
+        "(v1 without summary) x 0-3 zoom levels x zoom blocks {per chromosome, packed across chromosome boundaries as "
+        "UCSC writes them}. The harness subcommand readq executes CHROMS / INFO / SUMMARY / "
         "INTERVAL / VALUES / ZOOM / AUTOSQL / ITEMCOUNT on BigWigRead/BigBedRead plain, .cached() and GenericBBIRead; the "
         "answers are compared with the encoder's abstract content model (not with a re-decode) and across flavours. "
         "Non-trivial = R-tree depth >= 2 or chromosome tree >= 2 levels or big-endian; tags give the layout cells seen. "
@@ -273,7 +274,9 @@ PROPS = {
         rule="Per case one small input (<= 4 chromosomes, <= 12 items each, bigWig on even and bigBed on odd cases; compression, "
         "items_per_slot, block_size, zooms, inmemory, channel_size, one/two pass random) written into a recording sink "
         "that logs every write/seek/flush reaching it, once on the deterministic current-thread runtime and once on the "
-        "generated multi-thread configuration (the operation stream is schedule dependent). Crash points: for EVERY "
+        "generated multi-thread configuration (the operation stream is schedule dependent); two cases in sixteen are "
+        "the bulk class (one chromosome, 12 000 items, manual zooms 40/160/640, so that data and two zoom levels each exceed "
+        "any 8 KiB buffer and staged copies reach the sink as direct writes). Crash points: for EVERY "
         "prefix k of the log the image produced by the first k operations is opened; it must be rejected (error or "
         "panic anywhere) or serve chromosome table, every record and every advertised zoom level exactly as the "
         "complete file does. Faults: for EVERY operation index k (plus a margin of 3) one run with the k-th operation "
@@ -301,7 +304,8 @@ PROPS = {
         rule="Leg 1: merge_sections_many on 1..6 generated streams over a span of 49999..260000 bases (values starting at "
         "base 0, crossing / ending on / starting on the 50000-base work-window boundaries, a value spanning three "
         "windows, gaps longer than a window, the negated copy of another stream, explicit 0.0 values, empty streams, "
-        "very different lengths); values are small dyadics so every summation order is exact; oracle = per-base f64 "
+        "very different lengths); values are small dyadics (in one case of five scaled by 2^-64: tiny magnitudes with "
+        "exact sums) so every summation order is exact; oracle = per-base f64 "
         "sum array: output sorted, positive-length, non-overlapping, bit-equal value at every base with a non-zero sum, "
         "absent elsewhere; the first disagreement is classified by position (base 0 / at a window boundary / inside). "
         "Leg 2: merge_into on ALL overlapping pairs of a 0..8 grid (case 0) and fill / fill_start_to_end on generated "
@@ -365,7 +369,7 @@ PROPS = {
         ],
         rule="Exhaustive small worlds, independent of the seed. index_chroms: every run-length vector in {1,2,3,5,9}^{1..4} "
         "(780) x chromosome names {ASCII, multi-byte UTF-8} x line pattern {uniform, mixed lengths, one ~300-byte line at "
-        "EVERY line position} x {final newline, none}; the result must equal the linear scan's (offset, name) list, and "
+        "EVERY line position, one 9 KB / 21 KB line (longer than a BufReader fill) first / middle / last} x {final newline, none}; the result must equal the linear scan's (offset, name) list, and "
         "for the uniform / long-first-line files the parallel source fed with the returned index must produce the same "
         "sink bytes as the serial source. Ungrouped variants (a chromosome reappears at the end / a foreign run strictly "
         "inside another) are judged only by the weaker condition: None, or the parallel writer fed with the index ends "
@@ -411,7 +415,8 @@ PROPS = {
         "by the independent walker (harness/src/walk.rs) and each record compared with statistics recomputed from the "
         "input (covered bases exact, min/max exact, sum/sumsq within 2 ulp + 1e-6 * sum|term|); per chromosome the "
         "records' covered bases must add up to the data's; levels strictly increasing; reader's get_zoom_interval = "
-        "walker's records on the full span and must/may sets on sub-ranges from record boundaries; cfg-hook invariant: "
+        "walker's records on the full span and must/may sets on sub-ranges from record boundaries (a quarter of the "
+        "sub-range queries through get_zoom_interval_move on a fresh reader); cfg-hook invariant: "
         "the tiling cursor never moves before the start of the value being added. Non-trivial = the file has >= 2 zoom "
         "records in total.",
         assumptions=["libdeflater (a generic zlib implementation) is trusted to inflate blocks for the walker"],
